@@ -62,7 +62,8 @@ Arche ==
                              Kid(Foreign, FALSE, "x", FALSE, "v1"), Kid(101, TRUE, "x", FALSE, "old"),
                              Kid(0, TRUE, "x", FALSE, "old")}
     [] InitSet = "small" -> {NoKid, Kid(101, FALSE, "x", FALSE, "old"), Kid(0, FALSE, "x", FALSE, "v1"),
-                             Kid(Foreign, FALSE, "x", FALSE, "v1"), Kid(101, TRUE, "none", FALSE, "v1")}
+                             Kid(Foreign, FALSE, "x", FALSE, "v1"), Kid(101, TRUE, "none", FALSE, "v1"),
+                             Kid(0, FALSE, "x", TRUE, "v1")}
     [] InitSet = "race"  -> {NoKid, Kid(0, FALSE, "xy", FALSE, "v1"), Kid(101, FALSE, "xy", FALSE, "old"),
                              Kid(102, TRUE, "xy", FALSE, "v1")}
 
@@ -286,7 +287,7 @@ EnvKid(k, op, o) ==
   /\ store' = [store EXCEPT ![k] = o]
   /\ hist' = H([t |-> "env", op |-> op, kind |-> "Thing", name |-> k, obj |-> o])
   /\ UNCHANGED <<par, cache, pcache, pc, loc, des, viol, init0>>
-EnvDeleteKid(k)   == store[k].live /\ EnvKid(k, "delete", NoKid) /\ UNCHANGED <<uidc, rvc>>
+EnvDeleteKid(k)   == store[k].live /\ ~store[k].deleting /\ EnvKid(k, "delete", NoKid) /\ UNCHANGED <<uidc, rvc>>
 EnvRecreateKid(k, c) ==
   /\ EnvKid(k, IF store[k].live THEN "recreate" ELSE "create",
             [live |-> TRUE, uid |-> uidc, rv |-> rvc + 1, ctrl |-> c, extra |-> FALSE, lab |-> "xy", deleting |-> FALSE, v |-> "v1", la |-> 0])
